@@ -3,5 +3,5 @@ CONSTANTS
  NAngles = 8
  K = 4
 ACTION_CONSTRAINT Emit
-INVARIANTS ProperRotation QuatTwoWays FixedIsReversedMoving
+INVARIANTS ProperRotation QuatTwoWays FixedIsReversedMoving AxisAngle
 CHECK_DEADLOCK FALSE
